@@ -50,6 +50,9 @@ def pascal(k):
     return k[:1].upper() + k[1:]
 
 
+FALSY_OUTPUTS = {"out_empty_object": {}, "out_empty_list": [], "out_empty_string": "", "out_zero": 0, "out_false": False, "out_null": None}
+
+
 # ----------------------------------------------------------------- child family
 def child_definition(kind, W):
     T = lambda fn, **kw: dict({"Type": "Task", "Resource": W.fn_arn(fn)}, **kw)
@@ -84,6 +87,9 @@ def child_definition(kind, W):
                 {"StartAt": "Wt", "States": {"Wt": {"Type": "Wait", "Seconds": SLOW, "End": True}}},
                 {"StartAt": "C1", "States": {"C1": T("childslow", End=True)}}]},
             "C2": T("childfn2", End=True)}}
+    if kind in FALSY_OUTPUTS:
+        # the child succeeds with an output that is falsy in Python ({} [] "" 0 false null): still its output
+        return {"StartAt": "C1", "States": {"C1": T("childfn", Next="C2"), "C2": {"Type": "Pass", "Result": FALSY_OUTPUTS[kind], "End": True}}}
     if kind == "fail_in_parallel":
         # the child fails inside a Parallel state one of whose Branches has finished already (its event is held for the join when the child ends)
         return {"StartAt": "Par", "States": {"Par": {"Type": "Parallel", "End": True, "Branches": [
@@ -105,6 +111,8 @@ def child_result(kind, inp):
         return "SUCCEEDED", {"got": inp, "k": 1}
     if kind == "two_step":
         return "SUCCEEDED", {"second": {"got": inp, "k": 1}}
+    if kind in FALSY_OUTPUTS:
+        return "SUCCEEDED", FALSY_OUTPUTS[kind]
     if kind in ("fail_task", "fail_in_parallel"):
         return "FAILED", "ChildErr"
     if kind == "fail_state":
@@ -121,7 +129,7 @@ def child_result(kind, inp):
 
 def child_duration(sc):
     k = sc["child"]
-    if k in ("succeed", "two_step", "fail_task", "fail_in_parallel"):
+    if k in ("succeed", "two_step", "fail_task", "fail_in_parallel") or k in FALSY_OUTPUTS:
         return sc["child_delay"]
     if k == "fail_state":
         return 0
@@ -744,7 +752,7 @@ def strategies():
         "form": st.sampled_from(["async", "sync", "sync", "sync2", "sync2", "sdk_sync"]),
         "parent_type": st.sampled_from(["STANDARD", "STANDARD", "STANDARD", "EXPRESS"]),
         "child_type": st.sampled_from(["STANDARD", "STANDARD", "EXPRESS"]),
-        "child": st.sampled_from(["succeed", "succeed", "two_step", "fail_task", "fail_state", "slow_wait", "slow_task", "slow_nested", "wait_then_slow_task", "fanout_then_slow_task", "slow_longform_task", "slow_nested2", "fail_in_parallel"]),
+        "child": st.sampled_from(["succeed", "succeed", "two_step", "fail_task", "fail_state", "slow_wait", "slow_task", "slow_nested", "wait_then_slow_task", "fanout_then_slow_task", "slow_longform_task", "slow_nested2", "fail_in_parallel"] + sorted(FALSY_OUTPUTS)),
         "child_exists": st.sampled_from([True] * 9 + [False]),
         "child_delay": st.sampled_from([0, 0.5, 3, 8]),
         "shape": st.sampled_from(["plain", "plain", "plain", "parallel", "parallel", "map"]),
